@@ -1484,11 +1484,84 @@ class Executor:
         if k == 'adt':
             return self.make_adt(st, rv[1], rv[2])
         if k == 'closure':
-            return Closure(normalize_closure(rv[1]), [self.eval_operand(st, o) for o in rv[2]])
+            caps = [self.eval_operand(st, o) for o in rv[2]]
+            name = normalize_closure(rv[1])
+            need = self.closure_capture_types(name)
+            if need is not None and len(caps) < len(need):
+                caps = self.recover_captures(st, rv[2], caps, need, name)
+            return Closure(name, caps)
         if k == 'len':
             v = self.read_place(st, len(st.frames) - 1, rv[1])
             return Int('usize', len(self.elems_of(v)))
         raise ExecError('unknown rvalue ' + k)
+
+    def closure_capture_types(self, name):
+        """types of the captures a closure body projects out of its environment (`(_1.N: T)`), by index"""
+        cache = self.prog.const_cache
+        key = ('captys', name)
+        if key in cache:
+            return cache[key]
+        nm = self.prog.closures.get(name)
+        out = None
+        if nm is not None:
+            f = self.prog.items[nm]
+            tys = {}
+            for raw in f.src.values():
+                for ln in raw:
+                    for m in re.finditer(r'\(\*?_1\.(\d+): ((?:[^()]|\([^()]*\))*)\)', ln):
+                        tys[int(m.group(1))] = m.group(2).strip()
+            if tys:
+                out = [tys.get(i) for i in range(max(tys) + 1)]
+        cache[key] = out
+        return out
+
+    def recover_captures(self, st, ops, caps, need, name):
+        """The MIR pretty-printer zips the operands of a closure aggregate with the names of the captured *variables*:
+        with disjoint field captures (`self.cache`, `self.just_seeked`, `buf`) it prints fewer operands than the
+        closure has captures.  The missing operands are temporaries of the enclosing frame that were assigned for this
+        purpose: initialised locals of exactly the capture's type that no statement or terminator of the function
+        mentions except their own assignment and storage markers."""
+        fr = st.frames[-1]
+        fn = fr.fn
+        used = {}
+        text_all = []
+        for raw in fn.src.values():
+            text_all.extend(raw)
+        def mentions(loc):
+            pat = re.compile(r'(?<![\w])_%d(?![\w])' % loc)
+            n = 0
+            for ln in text_all:
+                if ln.strip().startswith(('StorageLive', 'StorageDead')):
+                    continue
+                n += len(pat.findall(ln))
+            return n
+        given = set()
+        for o in ops:
+            if o[0] in ('copy', 'move') and not o[1][1]:
+                given.add(o[1][0])
+        out = []
+        ci = 0
+        pool = [l for l, v in fr.locals.items() if v is not UNINIT and l not in given and l not in fn.args and l != 0]
+        for i, ty in enumerate(need):
+            # operands are printed in capture order; place the given ones where their type fits, fill the rest
+            if ci < len(caps) and ty is not None and self._local_type_is(fn, ops[ci], ty):
+                out.append(caps[ci])
+                ci += 1
+                continue
+            cands = [l for l in pool if ty is not None and fn.locals.get(l, '').strip() == ty and mentions(l) == 1]
+            if len(cands) != 1:
+                raise ExecError('closure %s: capture %d (%s) is not printed in the MIR aggregate and cannot be recovered (%d candidates)'
+                                % (name, i, ty, len(cands)))
+            pool.remove(cands[0])
+            out.append(fr.locals[cands[0]])
+        if ci != len(caps):
+            raise ExecError('closure %s: printed captures do not fit the capture types' % name)
+        return out
+
+    def _local_type_is(self, fn, op, ty):
+        if op[0] in ('copy', 'move') and not op[1][1]:
+            return fn.locals.get(op[1][0], '').strip() == ty
+        return False
 
     def const_usize(self, st, text):
         text = text.strip()
